@@ -232,6 +232,53 @@ theorem crossTransitivitySparse_eq (A : Adj) (hA : Symm A) (L1 L2 : List Nat) :
 example : ctSparseCounts (crossOutDegree (fun a b => a != b) [0] [1, 2, 3])
     (fun a b => a != b) [0] [1, 2, 3] = (3, 3) := by decide
 
+/-- **`cross_local_clustering_sparse` = `cross_local_clustering`** (no symmetry needed: both
+test `A[n1,n2] ∧ A[n2,n3] ∧ A[n3,n1]`): the positional loops with offset `N1`, the counter reset
+and the `norm ≠ 0` guard reproduce the kernel's result entry by entry, in any list order. -/
+theorem clcSparse_eq_dense (directed : Bool) (A : Adj) (L1 L2 : List Nat) :
+    clcSparse directed A L1 L2 = crossLocalClustering directed A L1 L2 := by
+  unfold clcSparse crossLocalClustering clcKernel
+  have hlen : (clcNorm (crossDegree directed A L1 L2)).length = L1.length := by
+    unfold clcNorm crossDegree crossInDegree crossOutDegree rowSums colSums blockN block
+    split
+    · simp
+      have : ∀ (M : List (List Nat)) (acc : List Nat), (∀ r ∈ M, r.length = acc.length) →
+          (M.foldl (fun acc r => List.zipWith (· + ·) acc r) acc).length = acc.length := by
+        intro M
+        induction M with
+        | nil => simp
+        | cons r t ih =>
+          intro acc h
+          rw [List.foldl_cons, ih]
+          · simp [h r (by simp)]
+          · intro r' hr'
+            simp [h r (by simp), h r' (by simp [hr'])]
+      rw [this]
+      · simp
+      · intro r hr
+        simp only [List.mem_map] at hr
+        obtain ⟨a, _, rfl⟩ := hr
+        simp
+    · simp
+  apply List.ext_getElem
+  · simp [hlen]
+  · intro i h1 h2
+    simp only [List.length_map, List.length_range] at h1
+    simp only [List.getElem_map, List.getElem_range, List.getElem_zipWith]
+    have hn : (clcNorm (crossDegree directed A L1 L2)).getD i 0
+        = (clcNorm (crossDegree directed A L1 L2))[i]'(by omega) := by
+      simp [List.getD_eq_getElem?_getD, hlen, h1]
+    rw [hn]
+    split
+    · rw [sparse_clc_row A L1 L2 i h1, clcCount_eq_pairSum]
+      have : L1.getD i 0 = L1[i] := by simp [List.getD_eq_getElem?_getD, h1]
+      rw [this]
+      congr 2
+      apply pairSum_congr
+      intro a b
+      simp [Bool.and_assoc]
+    · rfl
+
 /-! ### n.s.i. kernels = published double sums -/
 
 /-- **kernel = definition** (`_nsi_cross_local_clustering`): for a symmetric extended adjacency
